@@ -657,7 +657,23 @@ def r03_13(chk):
     chk.floor("R03.13", 8, "the _construct_* overloads of the alignment module")
 
 
+def r03_14(chk):
+    chk.rule("R03.14", "positions taken from a numpy array are positions: where __getitem__ of Aligned / IndelMap dispatches on the index type (singledispatchmethod), numpy.integer is registered next to int -- iterating a numpy index array yields numpy.int64, which is not an int, and an unregistered type falls to the NotImplementedError base, so take_positions(numpy_array) fails on the annotatable class while the array-backed one works")
+    for rel, cname in ((ALN, "Aligned"), ("core/location.py", "IndelMap")):
+        m = chk.repo.module(rel)
+        ci = m.cls(cname)
+        regs = []
+        for st in ci.node.body:
+            if isinstance(st, ast.FunctionDef) and st.name == "_" and any("__getitem__.register" in norm(d) for d in st.decorator_list) and len(st.args.args) > 1 and st.args.args[1].annotation is not None:
+                regs.append(norm(st.args.args[1].annotation))
+        if "int" not in regs:
+            raise AnalysisError(f"{cname}.__getitem__: int overload not found")
+        chk.decide(any(r in ("numpy.integer", "np.integer", "numbers.Integral") for r in regs), "R03.14", key(m, f"{cname}.__getitem__", "numpy integers dispatched like int"), m.loc(ci.node), f"registered: {sorted(regs)}", f"{cname}.__getitem__ registers {sorted(regs)} but no numpy integer type: an index taken from a numpy array raises NotImplementedError")
+    chk.floor("R03.14", 2, "Aligned and IndelMap")
+
+
 def run(chk):
+    r03_14(chk)
     r03_13(chk)
     r03_12(chk)
     r03_11(chk)
